@@ -113,7 +113,7 @@ def variance_stokes_constant(st, sections, acquisitiontime, reshape_residuals=Tr
     TODO: Account for varying acquisition times
     """
     validate_sections_definition(sections=sections)
-    validate_no_overlapping_sections(sections=sections)
+    validate_no_overlapping_sections(sections=sections, x=st.coords["x"])
     check_allclose_acquisitiontime(acquisitiontime=acquisitiontime)
 
     assert st.dims[0] == "x", "DataArray is transposed"
@@ -273,7 +273,7 @@ def variance_stokes_exponential(
     04Calculate_variance_Stokes.ipynb>`_
     """
     validate_sections_definition(sections=sections)
-    validate_no_overlapping_sections(sections=sections)
+    validate_no_overlapping_sections(sections=sections, x=st.coords["x"])
     check_allclose_acquisitiontime(acquisitiontime=acquisitiontime)
 
     assert st.dims[0] == "x", "Stokes are transposed"
@@ -451,7 +451,7 @@ def variance_stokes_linear(
         linear function
     """
     validate_sections_definition(sections=sections)
-    validate_no_overlapping_sections(sections=sections)
+    validate_no_overlapping_sections(sections=sections, x=st.coords["x"])
     check_allclose_acquisitiontime(acquisitiontime=acquisitiontime)
 
     assert st.dims[0] == "x", "Stokes are transposed"
